@@ -283,6 +283,10 @@ func (e *Engine) havocForLoop(st *State, W *writeSet, ctx *LoopCtx, li *loopInfo
 			continue
 		}
 		is.Visited = tb.Fresh("visited", SArrB)
+		if is.Count != nil {
+			is.Count = tb.Fresh("itercount", SInt)
+			e.assumeQuiet(st, tb.Le(tb.Int(0), is.Count))
+		}
 		st.Iters[it] = is
 		if st.Disc != nil {
 			st.Disc.Iters[it] = true
